@@ -20,6 +20,7 @@ EXPLANATION = (
     "single remaining candidate wins outright; the random tiebreak is random.sample(list(S), "
     "k=len(S)), a uniform permutation. Does NOT decide the frequencies themselves."
 )
+EXPLANATION += ' Also decided (prerequisites and later clauses): the seat winner and nobody else is removed before the next draw (C12.R1 on remove_cand).'
 ASSUMPTIONS = ["random.choices / numpy.random.choice draw with the given weights; random.sample(list, k=len) is a uniform permutation (trusted)"]
 TRUSTED = ["random.choices", "numpy.random.choice", "random.sample", "random.uniform"]
 
